@@ -100,7 +100,10 @@ static void do_builder(hctx* h, const el_t* cols, int ncols) {
 /* random well-formed subtree appended at e[*n]; returns nothing, fills nchild */
 static void gen_tree(hctx* h, el_t* e, int* n, int cap, int depth, int is_root) {
     int me = (*n)++;
-    snprintf(e[me].name, sizeof e[me].name, "%c%d", 'a' + (int)h_below(h, 4), (int)h_below(h, 5));
+    /* names: a small pool with repeats, including names that are proper prefixes of other names */
+    static const char* const prefix_pool[] = { "p", "pr", "price", "price_usd", "id", "idx", "i", "col_1", "col_10" };
+    if (h_chance(h, 1, 3)) snprintf(e[me].name, sizeof e[me].name, "%s", prefix_pool[h_below(h, 9)]);
+    else snprintf(e[me].name, sizeof e[me].name, "%c%d", 'a' + (int)h_below(h, 4), (int)h_below(h, 5));
     e[me].rep = is_root ? (h_chance(h, 1, 2) ? -1 : 0) : (int)h_below(h, 3);
     if (!is_root && h_chance(h, 1, 12)) e[me].rep = -1;
     e[me].tlen = 0; e[me].ptype = -1; e[me].nchild = 0;
@@ -129,6 +132,8 @@ static void gen_schema(hctx* h) {
         do_build(h, e, n, NULL); wf++;
         if (t % 3 == 0) {
             char nm[24]; snprintf(nm, sizeof nm, "%c%d", 'a' + (int)h_below(h, 4), (int)h_below(h, 5));
+            if (h_chance(h, 1, 2)) snprintf(nm, sizeof nm, "%s", e[h_below(h, (uint64_t)n)].name);      /* a name that occurs */
+            else if (h_chance(h, 1, 3)) { static const char* const pp[] = { "p", "pr", "price", "price_usd", "id", "idx", "i", "col_1", "col_10" }; snprintf(nm, sizeof nm, "%s", pp[h_below(h, 9)]); }
             do_build(h, e, n, nm);
         }
         if (t % 4 == 0) {
